@@ -236,4 +236,83 @@ class TreeConcreteStart(Histories):
         return histories(self.reps, concrete_start="always")
 
 
-FACETS = [Histories(), TreeConcreteStart()]
+class SelectionContainers(Facet):
+    """Selection steps (tournament, lexicase, elitism) and combinators over them must not modify the
+    population CONTAINER they are given either: after the step the caller's list holds the same
+    individuals in the same order (multi-objective problems included, so lexicase is exercised)."""
+
+    name = "selection_does_not_modify_the_given_population"
+
+    def budget(self, tier):
+        return (150, 3) if tier == "quick" else (800, 8)
+
+    def strategy(self, tier):
+        sel = st.one_of(
+            st.builds(lambda e: ["lexicase", e], st.booleans()),
+            st.builds(lambda k, r: ["tournament", k, r], st.integers(1, 4), st.booleans()),
+            st.just(["elitism"]),
+            st.just(["identity"]),
+        )
+        comp = st.one_of(
+            sel,
+            st.lists(sel, min_size=1, max_size=3).map(lambda ss: ["par", ss, [1] * len(ss)]),
+            st.lists(sel, min_size=1, max_size=2).map(lambda ss: ["seq", ss]),
+            st.lists(sel, min_size=1, max_size=2).map(lambda ss: ["seq", [["par", ss, [1] * len(ss)]]]),
+        )
+        return st.integers(2, 9).flatmap(
+            lambda n: st.builds(
+                lambda vectors, step, kk, seed: {"vectors": vectors, "step": step, "k": 1 + kk % n, "seed": seed},
+                st.lists(st.lists(st.integers(0, 5), min_size=2, max_size=2), min_size=n, max_size=n),
+                comp,
+                st.integers(0, 8),
+                st.integers(0, 2**31),
+            ),
+        )
+
+    def run(self, case, rec):
+        from geneticengine.evaluation.sequential import SequentialEvaluator
+        from geneticengine.problems import MultiObjectiveProblem
+        from geneticengine.random.sources import NativeRandomSource
+        from geneticengine.solutions.individual import Individual
+
+        class TableRep:
+            def genotype_to_phenotype(self, g):
+                return g
+
+        rep = TableRep()
+        problem = MultiObjectiveProblem([False, True], lambda p: list(p[1]))
+        ev = SequentialEvaluator()
+        inds = [Individual((i, tuple(v)), rep) for i, v in enumerate(case["vectors"])]
+        ev.evaluate(problem, inds)
+        given = list(inds)
+        before = [id(x) for x in given]
+        fit_before = [tuple(x.get_fitness(problem).fitness_components) for x in given]
+        rec.label(*["has:" + k for k in sorted(_kinds(case["step"]))])
+        rec.sample({"step": step_str(case["step"]), "population": case["vectors"], "k": case["k"]}, limit=3)
+        try:
+            out = list(build_step(case["step"]).apply(problem, ev, rep, NativeRandomSource(case["seed"]), given, case["k"], 1))
+        except Exception as e:  # noqa: BLE001
+            rec.discard()
+            rec.label("discarded:" + type(e).__name__)
+            out = None
+        after = [id(x) for x in given]
+        if after != before:
+            rec.fail(
+                "C09/population-container-modified/" + ("shrunk" if len(after) < len(before) else ("reordered" if sorted(after) == sorted(before) else "changed")),
+                f"{step_str(case['step'])} asked for {case['k']} of {len(before)} individuals left the caller's population list with {len(after)} entries (removed indices {[i for i, x in enumerate(before) if x not in after]})",
+            )
+        elif [tuple(x.get_fitness(problem).fitness_components) for x in given] != fit_before:
+            rec.fail("C09/input-modified/table/fitness", f"{step_str(case['step'])} changed a cached fitness of the given individuals")
+        if len({tuple(v) for v in case["vectors"]}) >= 3 and case["k"] >= 2:
+            rec.nontrivial(case)
+
+
+def _kinds(j):
+    out = {j[0]}
+    if j[0] in ("seq", "par", "xpar"):
+        for x in j[1]:
+            out |= _kinds(x)
+    return out
+
+
+FACETS = [Histories(), TreeConcreteStart(), SelectionContainers()]
